@@ -473,6 +473,40 @@ def _install(ch):
                 return SimReadFile(real, int(rp['after']), 'b' in mode, os.fspath(file))
         return _real_open(file, mode, buffering, encoding, errors, newline, closefd, opener)
 
+    vanish = dict(plan.get('vanish') or {})      # relpath -> k: removed just before the k-th observation (stat or open)
+    seen = {}
+
+    def observe_path(path):
+        if not vanish:
+            return
+        try:
+            rel = ch.rel(path)
+        except Exception:
+            return
+        if rel in vanish:
+            seen[rel] = seen.get(rel, 0) + 1
+            if seen[rel] == vanish[rel]:
+                ch.log({'k': 'vanish', 'path': rel, 'at': seen[rel]})
+                try:
+                    _real_os['unlink'](os.path.join(ch.root, rel))
+                except OSError:
+                    pass
+
+    real_stat = os.stat
+    if vanish:
+        def sim_stat(path, *a, **kw):
+            if not isinstance(path, int) and not kw.get('dir_fd'):
+                observe_path(path)
+            return real_stat(path, *a, **kw)
+        os.stat = sim_stat
+        inner_open = sim_open
+
+        def sim_open_v(file, mode='r', *a, **kw):
+            if not isinstance(file, int):
+                observe_path(file)
+            return inner_open(file, mode, *a, **kw)
+        sim_open = sim_open_v
+
     builtins.open = sim_open
     io.open = sim_open
     try:
